@@ -287,6 +287,68 @@ fn literal_of_type(t: &Type, variant: usize) -> Option<String> {
     })
 }
 
+/// Names a top-level statement defines (`a := ..`, `(a, b) := ..`); empty for anything else.
+fn defined_names(st: &str) -> Vec<String> {
+    let Some((lhs, _)) = st.split_once(":=") else { return vec![] };
+    let lhs = lhs.trim();
+    let inner = lhs.strip_prefix('(').and_then(|l| l.strip_suffix(')')).unwrap_or(lhs);
+    let names: Vec<String> = inner.split(',').map(|n| n.trim().to_string()).collect();
+    if names.iter().all(|n| !n.is_empty() && n.chars().all(|c| c.is_ascii_alphanumeric() || c == '_') && !n.chars().next().unwrap().is_ascii_digit()) {
+        names
+    } else {
+        vec![]
+    }
+}
+
+fn idents_of(text: &str) -> Vec<String> {
+    let mut out = Vec::new();
+    let mut cur = String::new();
+    let mut in_str = false;
+    for ch in text.chars() {
+        if ch == '"' {
+            in_str = !in_str;
+        }
+        if !in_str && (ch.is_ascii_alphanumeric() || ch == '_') {
+            cur.push(ch);
+        } else if !cur.is_empty() {
+            if !cur.chars().next().unwrap().is_ascii_digit() {
+                out.push(std::mem::take(&mut cur));
+            } else {
+                cur.clear();
+            }
+        }
+    }
+    if !cur.is_empty() && !cur.chars().next().unwrap().is_ascii_digit() {
+        out.push(cur);
+    }
+    out
+}
+
+/// For a top-level name whose last definition is the plain statement `name := EXPR` and none of
+/// whose identifiers was re-defined afterwards: EXPR (its static type still describes the value).
+fn defining_expression(statements: &[String], name: &str) -> Option<String> {
+    let (at, expr) = statements.iter().enumerate().rev().find_map(|(i, st)| {
+        let names = defined_names(st);
+        if names.iter().any(|n| n == name) {
+            Some((i, if names.len() == 1 { st.split_once(":=").map(|(_, e)| e.trim().to_string()) } else { None }))
+        } else {
+            None
+        }
+    })?;
+    let expr = expr?;
+    let ids = idents_of(&expr);
+    for st in &statements[at + 1..] {
+        if defined_names(st).iter().any(|n| ids.contains(n)) {
+            return None;
+        }
+    }
+    // the expression must not mention the name itself (`x := x + 1`)
+    if ids.iter().any(|i| i == name) {
+        return None;
+    }
+    Some(expr)
+}
+
 fn sample_args(t: &Type, variant: usize) -> Option<Variable> {
     Some(match t {
         Type::Int => Variable::Int([7, 0, -3][variant % 3]),
@@ -750,6 +812,42 @@ pub fn run_scenario(sc: &Scenario) -> RunReport {
                     let mut rev = good.clone();
                     rev.reverse();
                     vectors.push(rev);
+                }
+                // soundness of the static type against the host's judgement: where the language
+                // accepts `f(.., EXPR, ..)` for the expression that DEFINED a top-level value, the
+                // host must accept that value in the same position (only acceptance is compared,
+                // nothing is executed: EXPR may have effects and fresh iterator state)
+                for (pos, pt) in ft.params.iter().enumerate() {
+                    if matches!(pt, Type::Mut(_)) {
+                        continue;
+                    }
+                    for vn in names.iter().take(24) {
+                        if vn == "std" || vn == &n {
+                            continue;
+                        }
+                        let Some(b) = binterp.get_variable(vn).cloned() else { continue };
+                        if matches!(b, Variable::Mut(_)) {
+                            continue;
+                        }
+                        let Some(expr) = defining_expression(&sc.statements, vn) else { continue };
+                        let mut texts: Vec<String> = good.iter().map(|g| g.1.clone()).collect();
+                        texts[pos] = format!("({expr})");
+                        let text = format!("{n}({})", texts.join(", "));
+                        let lang_ok = matches!(guarded(|| Code::parse(&interp, &text).map(|_| ())), Ok(Ok(())));
+                        if !lang_ok {
+                            continue;
+                        }
+                        let mut args: Vec<Variable> = good.iter().map(|g| g.0.clone()).collect();
+                        args[pos] = b.clone();
+                        rep.events += 1;
+                        if let Ok(Err(e)) = guarded(|| f.clone().create_call(args).map(|_| ())) {
+                            rep.violation = Some((
+                                "host-call-accepts-differently".into(),
+                                format!("`{text}` is accepted in the language, but create_call rejects the value `{vn}` holds ({expr}) in that position: {}", cerror(&e)),
+                            ));
+                            return rep;
+                        }
+                    }
                 }
                 for (vi, pairs) in vectors.into_iter().enumerate() {
                     let args: Vec<Variable> = pairs.iter().map(|p| p.0.clone()).collect();
